@@ -428,6 +428,10 @@ pub mod rt {
   pub enum Ev {
     /// task asked for the lock (scheduling point precedes the grant)
     Req { obj: ObjId, write: bool },
+    /// task asked for the lock with try_read / try_write / try_lock (scheduling point follows); the next
+    /// event of the task is `Acq` (granted) or `TryFail`
+    TryReq { obj: ObjId, write: bool },
+    TryFail { obj: ObjId, write: bool },
     /// lock granted; `ver` = version of the protected object observed,
     /// `rec` = recursive read (task already read-holds it)
     Acq { obj: ObjId, write: bool, ver: u32, rec: bool },
@@ -962,6 +966,7 @@ pub mod rt {
     let s = site_str(site);
     g.tasks[me].site = s.clone();
     g.tasks[me].pending = Pending::None;
+    log(&mut g, me, Ev::TryReq { obj, write }, &s);
     g = reschedule(g, me, false);
     g = check_abort(g);
     if g.abort.is_some() {
@@ -970,6 +975,7 @@ pub mod rt {
     let l = g.locks.entry(obj).or_default();
     let free = if write { l.writer.is_none() && l.readers.is_empty() } else { l.writer.is_none() };
     if !free {
+      log(&mut g, me, Ev::TryFail { obj, write }, &s);
       return false;
     }
     let ver;
@@ -981,7 +987,6 @@ pub mod rt {
       l.readers.push(me);
       ver = l.ver;
     }
-    log(&mut g, me, Ev::Req { obj, write }, &s);
     log(&mut g, me, Ev::Acq { obj, write, ver, rec: false }, &s);
     true
   }
@@ -993,6 +998,14 @@ pub mod rt {
     }
     let write = mode == Mode::Write;
     let mut g = lock_state();
+    // a schedule dictated by the SMT side may pre-empt a task inside its critical section (only a
+    // try_* of another task can tell the difference); without a dictated schedule nothing changes
+    if g.abort.is_none() && !::std::thread::panicking() && me < g.tasks.len() && !g.tasks[me].finished {
+      let pending_forced = g.cfg.forced_order.iter().any(|(t, tidx)| *t < g.tasks.len() && *t != me && !g.tasks[*t].finished && *tidx >= g.tasks[*t].nev);
+      if pending_forced {
+        g = reschedule(g, me, false);
+      }
+    }
     if let Some(l) = g.locks.get_mut(&obj) {
       if write {
         if l.writer == Some(me) {
